@@ -35,6 +35,10 @@ class SideConditions:
         return bad
 
     def holds(self, name):
+        if "." not in name:
+            # a local side rule of the running module (already evaluated into ctx.instances)
+            mine = [i for i in self.ctx.instances if i.rule == "%s.%s" % (self.ctx.prop, name)]
+            return bool(mine) and not any(i.verdict == "violation" for i in mine)
         prop, rule = name.split(".", 1)
         bad = self._run(prop)
         return ("%s.%s" % (prop, rule)) not in bad and ("%s.*" % prop) not in bad
